@@ -192,6 +192,29 @@ def extract_all():
     for p in split_top(find_initializer(conf, r"\bplaceholders\s*\[\s*\]\s*=\s*\{")):
         f = split_top(p[1:-1]); ph.append([S(f[0]), S(f[1]), cint(f[2])])
     data["placeholders"] = ph
+    # kmap.h: keymaps and digraphs
+    km = strip_comments(src("kmap.h"))
+    order = re.search(r"\bkmaps\s*\[\s*\]\s*=\s*\{([^}]*)\}", km)
+    if not order: raise ExtractError("kmaps[] not found")
+    kmaps = []
+    for name in [x.strip() for x in order.group(1).split(",") if x.strip()]:
+        body = find_initializer(km, r"\b%s\s*\[\s*256\s*\]\s*=\s*\{" % re.escape(name))
+        ent = []
+        for p in split_top(body):
+            m = re.match(r"\s*\[\s*(.+?)\s*\]\s*=\s*(\".*\")\s*$", p, re.S)
+            if not m: raise ExtractError("keymap entry not parsed: %r" % p)
+            idx = m.group(1)
+            if idx.startswith("'"):
+                body_c = idx[1:-1]
+                k = C_ESC[body_c[1]] if body_c.startswith("\\") and body_c[1] in C_ESC else (ord(body_c[1]) if body_c.startswith("\\") else ord(body_c))
+            else: k = cint(idx)
+            ent.append([k, cstr_bytes(m.group(2))])
+        kmaps.append(ent)
+    data["kmaps"] = kmaps
+    dg = []
+    for p in split_top(find_initializer(km, r"\bdigraphs\s*\[\s*\]\s*\[\s*2\s*\]\s*=\s*\{")):
+        f = split_top(p[1:-1]); dg.append([cstr_bytes(f[0]), cstr_bytes(f[1])])
+    data["digraphs"] = dg
     # regex.c
     rx = strip_comments(src("regex.c"))
     rdefs = defines(rx)
@@ -258,6 +281,9 @@ def render(data):
     L.append("def dirmarks : List (Int × Int × Nat × List Nat) := [" + ",\n  ".join("(%d, %d, %d, %s)" % (a, b, c, lean_list(p)) for a, b, c, p in data["dirmarks"]) + "]\n")
     L.append("/-- (source, placeholder, width) -/")
     L.append("def placeholders : List (List Nat × List Nat × Nat) := [" + ",\n  ".join("(%s, %s, %d)" % (lean_list(s), lean_list(d), w) for s, d, w in data["placeholders"]) + "]\n")
+    L.append("/-- `kmaps[]` of kmap.h: per keymap the (key, text) entries -/")
+    L.append("def kmaps : List (List (Nat × List Nat)) := [" + ",\n  ".join("[" + ", ".join("(%d, %s)" % (k, lean_list(v)) for k, v in km) + "]" for km in data["kmaps"]) + "]\n")
+    L.append("def digraphs : List (List Nat × List Nat) := [" + ",\n  ".join("(%s, %s)" % (lean_list(a), lean_list(b)) for a, b in data["digraphs"]) + "]\n")
     L.append("def brkClasses : List (List Nat × List Nat) := [" + ",\n  ".join("(%s, %s)" % (lean_list(a), lean_list(b)) for a, b in data["brk_classes"]) + "]\n")
     for k in ("ratom_special", "rep_chars", "rstr_stop"):
         if data[k] is None: raise ExtractError("decision string not found: " + k)
